@@ -54,6 +54,7 @@ func fieldOfParamName(v ssa.Value) (int, string, bool) {
 }
 
 func C05(p *load.Prog, r *oblig.Run) {
+	defer memoKeys(p, r, "R05.e")
 	r.Explanation = "Structural clauses only (E6 path rules + shape rules). R05.a/b: every feasible path through Date.Time is enumerated with the facts its branch tests establish about Day, Month, Year, IsEndOfRange and whether the text could be parsed (the parser's ok flag, or a zero-time test); " +
 		"the calendar text built on the path must be the documented one for exactly that combination of known components (full date: day month year; month and year: day 1 of the month; year only: 1 January; nothing otherwise) and the roll-forward applied " +
 		"to an end-of-range date must add exactly one unit of the finest known component (AddDate(0,0,1) / (0,1,0) / (1,0,0)) followed by minus one nanosecond, and nothing for a start bound or a text that is not a date. " +
